@@ -42,7 +42,7 @@ CASE_TIMEOUT = 600
 
 
 def cases(tier, seed):
-    n = 48 if tier == 'quick' else 640
+    n = 48 if tier == 'quick' else 1600
     return [{'seed': seed, 'idx': i, 'hashseed': i % 6, 'tier': tier} for i in range(n)]
 
 
@@ -332,7 +332,8 @@ def run_case(case):
                       lambda: '%d RuntimeWarnings, %d crystal operations incompatible with the superlattice %s' % (len(broken), nbad, desc), tags)
             if not compare_groups(mon, sup, ops, tags, desc): continue
         template = sup
-        nchem = sup.Nchem
+        nchem = crys.Nchem + nsol
+        mon.check(sup.Nchem == nchem and len(sup.chemorder) == nchem, 'C27:declared-species', lambda: 'Nchem=%s for %d native + %d solutes %s' % (sup.Nchem, crys.Nchem, nsol, desc), tags)
         for occround in range(3):
             occ, omode = rand_occupation(rng, sup, chem, interstitial, crys.Nchem, nchem)
             order = [[n for n in rng.permutation(nsites) if occ[n] == c] for c in range(nchem)]
